@@ -10,6 +10,63 @@ from facts import callee
 from report import RuleResult
 
 
+def _signed_in(F, b, param, depth):
+    """does the value returned by `b` depend on its parameter `param` through an odd path? (conservative: True when unsure)"""
+    if depth > 2 or len(b.blocks) > 60:
+        return True
+    defs = Defs(b)
+
+    def direct(op):
+        l = op["place"]["l"] if op.get("k") in ("copy", "move") else None
+        for _ in range(6):
+            if l is None:
+                return False
+            if l == param:
+                return True
+            ds = defs.of(l)
+            if len(ds) != 1 or ds[0][0] != "stmt":
+                return False
+            rv = ds[0][4]
+            if rv["k"] in ("use", "cast") and rv["op"].get("k") in ("copy", "move"):
+                l = rv["op"]["place"]["l"]
+            else:
+                return False
+        return False
+
+    def reach(l, seen):
+        if l in seen:
+            return False
+        seen.add(l)
+        if l == param:
+            return True
+        for d in defs.of(l):
+            if d[0] == "call":
+                t = d[2]
+                nm = str(callee(t)[2])
+                if nm == "abs" or (nm == "powi" and len(t["args"]) == 2 and t["args"][1].get("i") is not None and int(t["args"][1]["i"]) % 2 == 0):
+                    continue
+                cb = F.callee_body(t)
+                for ai, a in enumerate(t["args"]):
+                    if a.get("k") in ("copy", "move") and reach(a["place"]["l"], seen):
+                        if cb is not None and not cb.is_closure() and cb["arg_count"] == len(t["args"]) and not _signed_in(F, cb, ai + 1, depth + 1):
+                            continue
+                        return True
+            else:
+                rv = d[4]
+                k = rv["k"]
+                if k == "binop" and rv["op"] == "Mul" and direct(rv["a"]) and direct(rv["b"]):
+                    continue
+                ops = [rv["op"]] if k in ("use", "cast") else [rv["a"], rv["b"]] if k == "binop" else [rv["a"]] if k == "unop" else []
+                if k == "ref":
+                    ops = [{"k": "copy", "place": rv["place"]}]
+                for o in ops:
+                    if o.get("k") in ("copy", "move") and reach(o["place"]["l"], seen):
+                        return True
+        return False
+
+    return reach(0, set())
+
+
 def run(F):
     r = RuleResult("R60", "EVEN-GUARD: branches of a robust loss depend on the residual only through an even function of it")
     n = 0
@@ -54,8 +111,13 @@ def run(F):
                         continue
                     if nm == "powi" and len(t["args"]) == 2 and t["args"][1].get("i") is not None and int(t["args"][1]["i"]) % 2 == 0:
                         continue
-                    for a in t["args"]:
+                    cb = F.callee_body(t)
+                    for ai, a in enumerate(t["args"]):
                         if a.get("k") in ("copy", "move") and signed_reach(a["place"]["l"], seen):
+                            # a helper that itself depends on this argument only through an even function (`scale.z(ri)` = ri*ri/f^2)
+                            if cb is not None and not cb.is_closure() and cb["arg_count"] == len(t["args"]) and cb.path.startswith("feos") \
+                                    and not _signed_in(F, cb, ai + 1, 0):
+                                continue
                             return True
                 else:
                     rv = d[4]
